@@ -215,6 +215,129 @@ func runStress(op M) any {
 			wg.Wait()
 			lookers.Wait()
 		}
+		// a format that is registered before anybody looks and is only ever registered again (with
+		// one of two drivers), never removed: in every sequential order each lookup, parse and write
+		// finds one of the two
+		{
+			steady := formats.Format("verif/steady")
+			sa, sb := &markSerializer{"steady-a"}, &markSerializer{"steady-b"}
+			da, db := &markDriver{"steady-a"}, &markDriver{"steady-b"}
+			writer.RegisterSerializer(steady, sa)
+			reader.RegisterUnserializer(steady, da)
+			var stop atomic.Bool
+			var again sync.WaitGroup
+			for l := 0; l < 3; l++ {
+				again.Add(1)
+				go func(l int) {
+					defer again.Done()
+					for i := 0; !stop.Load(); i++ {
+						if (i+l)%2 == 0 {
+							writer.RegisterSerializer(steady, sa)
+							reader.RegisterUnserializer(steady, db)
+						} else {
+							writer.RegisterSerializer(steady, sb)
+							reader.RegisterUnserializer(steady, da)
+						}
+					}
+				}(l)
+			}
+			var users sync.WaitGroup
+			for w := 0; w < 8; w++ {
+				users.Add(1)
+				go func(w int) {
+					defer users.Done()
+					for i := 0; i < iters*2; i++ {
+						guard(v, "steady format", func() {
+							switch (i + w) % 4 {
+							case 0:
+								if x, err := writer.GetFormatSerializer(steady); err != nil || (x != native.Serializer(sa) && x != native.Serializer(sb)) {
+									v.add("GetFormatSerializer(%s) returned (%v, %v) while the format was only being registered again, never removed", steady, x, err)
+								}
+							case 1:
+								if u, err := reader.GetFormatUnserializer(steady); err != nil || (u != native.Unserializer(da) && u != native.Unserializer(db)) {
+									v.add("GetFormatUnserializer(%s) returned (%v, %v) while the format was only being registered again, never removed", steady, u, err)
+								}
+							case 2:
+								buf := nopCloser{&bytes.Buffer{}}
+								err := writer.New().WriteStreamWithOptions(tinyDoc, buf, &writer.Options{Format: steady})
+								if err != nil || (buf.String() != "steady-a" && buf.String() != "steady-b") {
+									v.add("a write in %s, only ever registered again, gave %q, %v", steady, buf.String(), err)
+								}
+							case 3:
+								d, err := reader.New().ParseStreamWithOptions(bytes.NewReader([]byte("{}")), &reader.Options{Format: steady})
+								if err != nil || d == nil || (d.Metadata.Name != "steady-a" && d.Metadata.Name != "steady-b") {
+									v.add("a parse in %s, only ever registered again, gave (%v, %v)", steady, d, err)
+								}
+							}
+						})
+					}
+					count(iters * 2)
+				}(w)
+			}
+			users.Wait()
+			stop.Store(true)
+			again.Wait()
+			writer.UnregisterSerializer(steady)
+			reader.UnregisterUnserializer(steady)
+		}
+	case "parse":
+		// many parses at once, through readers of their own and through one shared reader, of documents
+		// that use every member the parsers look at (licences, hashes, nested components, references):
+		// each result equals the sequential one and nothing takes the process down
+		var inputs [][]byte
+		inputs = append(inputs, []byte(richCDX), []byte(richSPDX), []byte(autoCDX), []byte(autoSPDX))
+		for i := 0; i < 4; i++ {
+			if b, err := encodeBOM(g.nativeBOM()); err == nil {
+				inputs = append(inputs, b)
+			}
+			d := g.cdxTreeDoc(g.Pick2([]int{3, 4, 5}), true)
+			for k, n := range asList(d["nl"].(M)["nodes"]) {
+				if at, ok := n.(M)["a"].(M); ok {
+					at["Licenses"] = []any{fmt.Sprintf("LicenseRef-%d-%d", i, k), "MIT"}[:1+k%2]
+					at["LicenseConcluded"] = fmt.Sprintf("LicenseRef-c-%d-%d", i, k)
+				}
+			}
+			if b, err := WriteDoc(DocOf(d), formats.CDX15JSON, 0); err == nil {
+				inputs = append(inputs, b)
+			}
+			if b, err := WriteDoc(DocOf(g.spdxDoc(true)), formats.SPDX23JSON, 0); err == nil {
+				inputs = append(inputs, b)
+			}
+		}
+		inputs = append(inputs, []byte(`{"bomFormat":"CycloneDX","specVersion":"1.5","components":[{"type":"library","name":"x","licenses":[{"license":{"id":null}},null,{"expression":"A OR B"}]}]}`),
+			[]byte(`{"spdxVersion":"SPDX-2.3","packages":[null,{"SPDXID":"SPDXRef-p","licenseConcluded":"MIT"}]}`))
+		skelOf := func(r *reader.Reader, in []byte) string {
+			d, err := r.ParseStream(bytes.NewReader(in))
+			if err != nil || d == nil {
+				return "err"
+			}
+			return js(parseCanon(DocJ(d)))
+		}
+		want := make([]string, len(inputs))
+		for i, in := range inputs {
+			want[i] = skelOf(reader.New(), in)
+		}
+		shared := reader.New()
+		for w := 0; w < 16; w++ {
+			wg.Add(1)
+			go func(w int) {
+				defer wg.Done()
+				for i := 0; i < iters/2+1; i++ {
+					k := (i*5 + w) % len(inputs)
+					guard(v, "parse", func() {
+						r := shared
+						if (i+w)%2 == 0 {
+							r = reader.New()
+						}
+						if got := skelOf(r, inputs[k]); got != want[k] {
+							v.add("a parse running next to others differs from the parse of the same document alone (input %d)", k)
+						}
+					})
+				}
+				count(iters/2 + 1)
+			}(w)
+		}
+		wg.Wait()
 	case "io":
 		// detection, parsing and writing of independent documents: each result equals its sequential result
 		type item struct {
@@ -401,8 +524,12 @@ func concGen(g *G, tier string) []M {
 		n, iters = 25, 3000
 	}
 	var ops []M
+	scenarios := []string{"registry", "io", "new", "parse"}
+	if os.Getenv("VERIF_PROP") == "C04" {
+		scenarios = []string{"parse"} // the clause "never terminate the process" of C04
+	}
 	for i := 0; i < n; i++ {
-		for _, sc := range []string{"registry", "io", "new"} {
+		for _, sc := range scenarios {
 			ops = append(ops, M{"op": "stress", "scenario": sc, "seed": float64(g.Int(1 << 30)), "iters": float64(iters)})
 		}
 	}
@@ -418,13 +545,22 @@ func oracleConc(op M, res any, exec func(M) any) []Finding {
 		}
 		return out
 	}
-	if a := asStr(r["aborted"]); a != "" {
-		out = append(out, Finding{"C17", fmt.Sprintf("scenario %s: the process aborted (%s): %s", asStr(op["scenario"]), a, asStr(r["stderr"]))})
-	}
-	for _, m := range asList(r["violations"]) {
-		out = append(out, Finding{"C17", fmt.Sprintf("scenario %s: %s", asStr(op["scenario"]), asStr(m))})
+	for _, p := range concProps(op) {
+		if a := asStr(r["aborted"]); a != "" {
+			out = append(out, Finding{p, fmt.Sprintf("scenario %s: the process aborted (%s): %s", asStr(op["scenario"]), a, asStr(r["stderr"]))})
+		}
+		for _, m := range asList(r["violations"]) {
+			out = append(out, Finding{p, fmt.Sprintf("scenario %s: %s", asStr(op["scenario"]), asStr(m))})
+		}
 	}
 	return out
+}
+
+func concProps(op M) []string {
+	if asStr(op["scenario"]) == "parse" {
+		return []string{"C17", "C04"}
+	}
+	return []string{"C17"}
 }
 
 var ConcStream = &Stream{
@@ -441,7 +577,7 @@ var ConcStream = &Stream{
 		return n
 	},
 	Nontrivial: func(op M) bool { return true },
-	OpProps:    func(op M) []string { return []string{"C17"} },
+	OpProps:    concProps,
 	Reps:       1,
 	NoShrink:   true,
 	NoModel:    func(op M) bool { return true },
